@@ -12,6 +12,12 @@ import m "github.com/cockroachdb/redact/internal/markers"
 -- gctx: the classification forced by the outermost enclosing Safe/Unsafe wrapper on the
 -- buffer this printer writes to (0 none, 1 safe, 2 unsafe). Ghost; the code's own record of it is p.override.
 ghostfield buffer.gctx int
+-- %w bookkeeping (C15): number of %w directives processed by this printer, whether %w was allowed at all,
+-- whether the first %w captured its operand, and that operand
+ghostfield pp.gnw int stable
+ghostfield pp.gw0 bool stable
+ghostfield pp.ggood bool stable
+ghostfield pp.gerr u stable
 -- snapshots of mode and override at a program point (used by loop invariants)
 ghostvar gl int
 ghostvar ga seq
@@ -29,7 +35,7 @@ pred Same(p *pp) = p.buf.mode == old(p.buf.mode) && p.override == old(p.override
 pred Kept(p *pp) = p.panicking == old(p.panicking) && p.erroring == old(p.erroring) && p.wrapErrs == old(p.wrapErrs) && p.wrappedErr == old(p.wrappedErr) && p.arg == old(p.arg) && p.value == old(p.value) && p.fmt.wid == old(p.fmt.wid) && p.fmt.prec == old(p.fmt.prec) && p.fmt.widPresent == old(p.fmt.widPresent) && p.fmt.precPresent == old(p.fmt.precPresent) && p.fmt.minus == old(p.fmt.minus) && p.fmt.plus == old(p.fmt.plus) && p.fmt.sharp == old(p.fmt.sharp) && p.fmt.space == old(p.fmt.space) && p.fmt.zero == old(p.fmt.zero) && p.fmt.plusV == old(p.fmt.plusV) && p.fmt.sharpV == old(p.fmt.sharpV) && p.reordered == old(p.reordered) && p.goodArgNum == old(p.goodArgNum)
 -- what sync.Pool may hold
 pred PoolInv(p *pp) = len(p.buf.buf) == 0 && p.buf.validUntil == 0 && p.buf.mode == UnsafeEscaped && !p.buf.markerOpen && p.override == 0 && p.buf.gctx == 0 && isnil(p.arg) && isnil(p.wrappedErr)
-pred Pristine(p *pp) = PoolInv(p) && !p.panicking && !p.erroring && !p.wrapErrs && p.fmt.buf == p.buf && !p.fmt.widPresent && !p.fmt.precPresent && !p.fmt.minus && !p.fmt.plus && !p.fmt.sharp && !p.fmt.space && !p.fmt.zero && !p.fmt.plusV && !p.fmt.sharpV
+pred Pristine(p *pp) = PoolInv(p) && p.gnw == 0 && !p.gw0 && !p.panicking && !p.erroring && !p.wrapErrs && p.fmt.buf == p.buf && !p.fmt.widPresent && !p.fmt.precPresent && !p.fmt.minus && !p.fmt.plus && !p.fmt.sharp && !p.fmt.space && !p.fmt.zero && !p.fmt.plusV && !p.fmt.sharpV
 
 -- a write site: payload class c (0 literal, 1 type name/diagnostic, 2 operand, 3 padding: follows the payload it pads) against mode and context
 -- width and precision stay within what the format parser produces
@@ -267,6 +273,12 @@ assume func (f *fmt) fmtFloat(v float64, size int, verb rune, prec int)
 
 -- ---------------------------------------------------------------- helpers.go
 
+func (p *pp) invalidWrap(verb rune)
+  public verb
+  modifies field(p.wrappedErr), field(p.wrapErrs)
+  ensures [C15] verb == 119 ==> !p.wrapErrs && isnil(p.wrappedErr)
+  ensures [C15] verb != 119 ==> p.wrapErrs == old(p.wrapErrs) && p.wrappedErr == old(p.wrappedErr)
+
 func (p *pp) startPrint()
   requires PI(p)
   modifies p.buf
@@ -325,6 +337,12 @@ pred KF(p *pp) = p.fmt.wid == old(p.fmt.wid) && p.fmt.prec == old(p.fmt.prec) &&
 pred KE(p *pp) = p.panicking == old(p.panicking)
 -- while an error report is being printed (erroring) with %v, no user method runs: nothing panics and the flag stays
 pred EV(p *pp, verb int) = old(p.erroring) && verb == 118 ==> !$panic && p.erroring
+-- the three states of %w capture (C15): none seen / exactly one, good / otherwise disabled for good
+pred WInv(p *pp) = (p.gnw == 0 ==> p.wrapErrs == p.gw0 && isnil(p.wrappedErr)) && (p.gnw == 1 && p.gw0 && p.ggood ==> p.wrapErrs && p.wrappedErr == p.gerr && !isnil(p.wrappedErr)) && (p.gnw >= 1 && !(p.gnw == 1 && p.gw0 && p.ggood) ==> !p.wrapErrs && isnil(p.wrappedErr)) && p.gnw >= 0
+-- what one %w directive does to the capture state: o is the operand after unwrapping Safe()/Unsafe()
+pred WCapture(p *pp, o interface{}) = old(p.wrapErrs) && isnil(old(p.wrappedErr)) && hasType(o, "error")
+-- capture disabled: an absorbing state
+pred WDead(p *pp) = !p.wrapErrs && isnil(p.wrappedErr)
 -- %w bookkeeping as on entry
 pred KW(p *pp) = p.wrapErrs == old(p.wrapErrs) && p.wrappedErr == old(p.wrappedErr)
 
@@ -370,6 +388,8 @@ func newPrinter() (r *pp)
   nosweep
   modifies alloc
   assume-fresh p after "p := ppFree.Get().(*pp)"
+  ghost p.gw0 = false after "p.wrapErrs = false"
+  ghost p.gnw = 0 after "p.wrapErrs = false"
   assume-fresh p.buf.buf after "p := ppFree.Get().(*pp)"
   assume [C12] inv(p.buf) && PoolInv(p) && WP(p.fmt) after "p := ppFree.Get().(*pp)"
   ensures r != nil && fresh(r)
@@ -479,6 +499,7 @@ func (p *pp) fmtBytes(v []byte, verb rune, typeString string)
   ensures-always [C11] $panic ==> p.panicking
   ensures KF(p) && p.panicking == old(p.panicking)
   ensures [C15] verb != 119 ==> KW(p)
+  ensures [C15] old(WDead(p)) ==> WDead(p)
   ensures-always [C11] EV(p, verb)
 
 func (p *pp) fmtPointer(value reflect.Value, verb rune)
@@ -513,6 +534,9 @@ func (p *pp) catchPanic(arg interface{}, verb rune, method string)
 
 func (p *pp) handleMethods(verb rune) (handled bool)
   public verb
+  ensures [C15] verb == 119 && !old(p.erroring) && WCapture(p, old(p.arg)) ==> p.wrapErrs && p.wrappedErr == old(p.arg)
+  ensures [C15] verb == 119 && !old(p.erroring) && !WCapture(p, old(p.arg)) ==> !p.wrapErrs && isnil(p.wrappedErr) && handled
+  ensures [C15] verb == 119 && !old(p.erroring) && !old(p.fmt.sharpV) && hasType(old(p.arg), "error") ==> handled
   requires B(p) && WP(p.fmt)
   may-panic
   class 2 before "p.fmt.fmtS(stringer.GoString())"
@@ -520,6 +544,7 @@ func (p *pp) handleMethods(verb rune) (handled bool)
   ensures-always [C11] $panic ==> p.panicking
   ensures [C15] verb != 119 ==> KW(p)
   ensures KF(p) && KE(p)
+  ensures [C15] old(WDead(p)) ==> WDead(p)
   ensures-always [C11] EV(p, verb)
 
 func (p *pp) handleSpecialValues(value reflect.Value, t reflect.Type, verb rune, depth int) (handled bool)
@@ -532,10 +557,12 @@ func (p *pp) handleSpecialValues(value reflect.Value, t reflect.Type, verb rune,
   ensures-always [C11] $panic ==> p.panicking
   ensures [C15] verb != 119 ==> KW(p)
   ensures KF(p) && KE(p)
+  ensures [C15] old(WDead(p)) ==> WDead(p)
   ensures-always [C11] EV(p, verb)
 
 func (p *pp) printArg(arg interface{}, verb rune)
   public verb
+  ensures [C15] verb == 119 && !old(p.erroring) && !old(p.fmt.sharpV) ==> (p.wrapErrs && !isnil(p.wrappedErr) && hasType(p.wrappedErr, "error") && old(p.wrapErrs) && isnil(old(p.wrappedErr))) || (!p.wrapErrs && isnil(p.wrappedErr))
   assume [C08] ref(f) != ref(p.buf.buf) before "defer p.startPreRedactable().restore()" #2
   assume [C08] ref(f) != ref(p.buf.buf) before "p.buf.Write([]byte(f))"
   requires B(p) && WP(p.fmt)
@@ -553,15 +580,16 @@ func (p *pp) printValue(value reflect.Value, verb rune, depth int)
   may-panic
   ghost gm = p.buf.mode before "switch f := value; value.Kind()"
   ghost gov = p.override before "switch f := value; value.Kind()"
-  loop 1 invariant !$panic && inv(p.buf) && B(p) && AsAt(p) && KF(p) && KE(p) && WP(p.fmt) && (verb != 119 ==> KW(p)) && (old(p.erroring) && verb == 118 ==> p.erroring) && len(sorted.Key) == len(sorted.Value)
-  loop 2 invariant !$panic && inv(p.buf) && B(p) && AsAt(p) && KF(p) && KE(p) && WP(p.fmt) && (verb != 119 ==> KW(p)) && (old(p.erroring) && verb == 118 ==> p.erroring) && 0 <= i
-  loop 3 invariant !$panic && inv(p.buf) && B(p) && AsAt(p) && KF(p) && KE(p) && WP(p.fmt) && (verb != 119 ==> KW(p)) && (old(p.erroring) && verb == 118 ==> p.erroring)
-  loop 4 invariant !$panic && inv(p.buf) && B(p) && AsAt(p) && KF(p) && KE(p) && WP(p.fmt) && (verb != 119 ==> KW(p)) && (old(p.erroring) && verb == 118 ==> p.erroring) && 0 <= i
-  loop 5 invariant !$panic && inv(p.buf) && B(p) && AsAt(p) && KF(p) && KE(p) && WP(p.fmt) && (verb != 119 ==> KW(p)) && (old(p.erroring) && verb == 118 ==> p.erroring) && 0 <= i
+  loop 1 invariant !$panic && inv(p.buf) && B(p) && AsAt(p) && KF(p) && KE(p) && WP(p.fmt) && (verb != 119 ==> KW(p)) && (old(WDead(p)) ==> WDead(p)) && (old(p.erroring) && verb == 118 ==> p.erroring) && len(sorted.Key) == len(sorted.Value)
+  loop 2 invariant !$panic && inv(p.buf) && B(p) && AsAt(p) && KF(p) && KE(p) && WP(p.fmt) && (verb != 119 ==> KW(p)) && (old(WDead(p)) ==> WDead(p)) && (old(p.erroring) && verb == 118 ==> p.erroring) && 0 <= i
+  loop 3 invariant !$panic && inv(p.buf) && B(p) && AsAt(p) && KF(p) && KE(p) && WP(p.fmt) && (verb != 119 ==> KW(p)) && (old(WDead(p)) ==> WDead(p)) && (old(p.erroring) && verb == 118 ==> p.erroring)
+  loop 4 invariant !$panic && inv(p.buf) && B(p) && AsAt(p) && KF(p) && KE(p) && WP(p.fmt) && (verb != 119 ==> KW(p)) && (old(WDead(p)) ==> WDead(p)) && (old(p.erroring) && verb == 118 ==> p.erroring) && 0 <= i
+  loop 5 invariant !$panic && inv(p.buf) && B(p) && AsAt(p) && KF(p) && KE(p) && WP(p.fmt) && (verb != 119 ==> KW(p)) && (old(WDead(p)) ==> WDead(p)) && (old(p.erroring) && verb == 118 ==> p.erroring) && 0 <= i
   ensures-always B(p) && Same(p) && WP(p.fmt)
   ensures-always [C11] $panic ==> p.panicking
   ensures [C15] verb != 119 ==> KW(p)
   ensures KF(p) && KE(p)
+  ensures [C15] old(WDead(p)) ==> WDead(p)
   ensures-always [C11] EV(p, verb)
 @*/
 
@@ -595,30 +623,46 @@ func (p *pp) argNumber(argNum int, format string, i int, numArgs int) (newArgNum
 func (p *pp) badArgNum(verb rune)
   public verb
   requires B(p) && WP(p.fmt)
-  ensures B(p) && Same(p) && Kept(p) && WP(p.fmt)
+  ensures B(p) && Same(p) && KF(p) && KE(p) && WP(p.fmt) && p.arg == old(p.arg)
+  ensures [C15] verb != 119 ==> KW(p)
+  ensures [C15] verb == 119 ==> !p.wrapErrs && isnil(p.wrappedErr)
 
 func (p *pp) missingArg(verb rune)
   public verb
   requires B(p) && WP(p.fmt)
-  ensures B(p) && Same(p) && Kept(p) && WP(p.fmt)
+  ensures B(p) && Same(p) && KF(p) && KE(p) && WP(p.fmt) && p.arg == old(p.arg)
+  ensures [C15] verb != 119 ==> KW(p)
+  ensures [C15] verb == 119 ==> !p.wrapErrs && isnil(p.wrappedErr)
 
 -- the state the print loops keep between operands
-pred Lp(p *pp) = !$panic && inv(p.buf) && B(p) && p.override == old(p.override) && p.buf.gctx == old(p.buf.gctx) && (p.buf.gctx != 2 ==> p.buf.mode == SafeEscaped) && !p.panicking && WP(p.fmt)
+pred Lp(p *pp) = !$panic && !p.erroring && inv(p.buf) && B(p) && p.override == old(p.override) && p.buf.gctx == old(p.buf.gctx) && (p.buf.gctx != 2 ==> p.buf.mode == SafeEscaped) && !p.panicking && WP(p.fmt)
 
 func (p *pp) doPrintf(format string, a []interface{})
   public format
-  requires PI(p) && !p.panicking && WP(p.fmt)
+  requires [C15] p.gnw == 0 && p.gw0 == p.wrapErrs && isnil(p.wrappedErr)
+  ghost p.gnw = c == 119 ? p.gnw + 1 : p.gnw before "p.printArg(a[argNum], rune(c))"
+  ghost p.ggood = (c == 119 && p.gnw == 1) ? (p.wrapErrs && !isnil(p.wrappedErr)) : p.ggood after "p.printArg(a[argNum], rune(c))"
+  ghost p.gerr = (c == 119 && p.gnw == 1) ? p.wrappedErr : p.gerr after "p.printArg(a[argNum], rune(c))"
+  ghost p.gnw = verb == 119 ? p.gnw + 1 : p.gnw before "p.badArgNum(verb)"
+  ghost p.ggood = (verb == 119 && p.gnw == 1) ? false : p.ggood after "p.badArgNum(verb)"
+  ghost p.gnw = verb == 119 ? p.gnw + 1 : p.gnw before "p.missingArg(verb)"
+  ghost p.ggood = (verb == 119 && p.gnw == 1) ? false : p.ggood after "p.missingArg(verb)"
+  ghost p.gnw = verb == 119 ? p.gnw + 1 : p.gnw before "p.printArg(a[argNum], verb)"
+  ghost p.ggood = (verb == 119 && p.gnw == 1) ? (p.wrapErrs && !isnil(p.wrappedErr)) : p.ggood after "p.printArg(a[argNum], verb)"
+  ghost p.gerr = (verb == 119 && p.gnw == 1) ? p.wrappedErr : p.gerr after "p.printArg(a[argNum], verb)"
+  ensures [C15] WInv(p) && p.gw0 == old(p.gw0)
+  requires PI(p) && !p.panicking && !p.erroring && WP(p.fmt)
   may-panic
-  loop 1 invariant Lp(p) && 0 <= i && i <= end && end == len(format) && 0 <= argNum
-  loop 2 invariant Lp(p) && 0 <= i && i <= end && end == len(format) && 0 <= argNum && lasti <= i
-  loop 3 invariant Lp(p) && 0 <= i && i <= end && end == len(format) && 0 <= argNum
-  loop 4 invariant Lp(p)
+  loop 1 invariant Lp(p) && 0 <= i && i <= end && end == len(format) && 0 <= argNum && WInv(p) && p.gw0 == old(p.gw0)
+  loop 2 invariant Lp(p) && 0 <= i && i <= end && end == len(format) && 0 <= argNum && lasti <= i && WInv(p) && p.gw0 == old(p.gw0)
+  loop 3 invariant Lp(p) && 0 <= i && i <= end && end == len(format) && 0 <= argNum && WInv(p) && p.gw0 == old(p.gw0)
+  loop 4 invariant Lp(p) && WInv(p) && p.gw0 == old(p.gw0)
   ensures-always [C05,C06] PI(p) && p.override == old(p.override) && p.buf.gctx == old(p.buf.gctx) && (p.buf.gctx != 2 ==> p.buf.mode == SafeEscaped)
   ensures-always [C11] $panic ==> p.panicking
   ensures !p.panicking && WP(p.fmt)
 
 func (p *pp) doPrint(a []interface{})
-  requires PI(p) && !p.panicking && WP(p.fmt)
+  requires PI(p) && !p.panicking && !p.erroring && WP(p.fmt)
   may-panic
   loop 1 invariant Lp(p)
   ensures-always [C05,C06] PI(p) && p.override == old(p.override) && p.buf.gctx == old(p.buf.gctx) && (p.buf.gctx != 2 ==> p.buf.mode == SafeEscaped)
@@ -626,7 +670,7 @@ func (p *pp) doPrint(a []interface{})
   ensures !p.panicking && WP(p.fmt)
 
 func (p *pp) doPrintln(a []interface{})
-  requires PI(p) && !p.panicking && WP(p.fmt)
+  requires PI(p) && !p.panicking && !p.erroring && WP(p.fmt)
   may-panic
   loop 1 invariant Lp(p)
   ensures-always [C05,C06] PI(p) && p.override == old(p.override) && p.buf.gctx == old(p.buf.gctx) && (p.buf.gctx != 2 ==> p.buf.mode == SafeEscaped)
@@ -638,6 +682,11 @@ func (p *pp) doPrintln(a []interface{})
 -- ---------------------------------------------------------------- entry points (print.go, helpers.go)
 
 -- what an io.Writer sees (C16): number of Write calls, the bytes of the last one, its results
+-- C15: what HelperForErrorf's printer counted (copied out of the printer before it is recycled)
+ghostvar gnwOut int
+ghostvar ggoodOut bool
+ghostvar gerrOut u
+
 ghostvar wcount int
 ghostvar wlast seq
 ghostvar wlen int
@@ -699,6 +748,12 @@ func Sprintfn(printer func(w i.SafePrinter)) (s m.RedactableString)
 
 func HelperForErrorf(format string, args ...interface{}) (s m.RedactableString, err error)
   public format
+  ghost p.gw0 = true after "p.wrapErrs = true"
+  ghost gnwOut = p.gnw after "p.doPrintf(format, args)"
+  ghost ggoodOut = p.ggood after "p.doPrintf(format, args)"
+  ghost gerrOut = p.gerr after "p.doPrintf(format, args)"
+  ensures [C15] gnwOut == 1 && ggoodOut ==> err == gerrOut && !isnil(err)
+  ensures [C15] !(gnwOut == 1 && ggoodOut) ==> isnil(err)
   may-panic
   modifies alloc, memU
   ensures [C01] WF(s, len(s), false) && clean(s, len(s))
